@@ -22,6 +22,12 @@ for c in man['checks']:
         ev_ok = str(e)
     rows.append((pid, p.returncode, round(dt), len(viol), known, ev_ok))
     print(f'{pid}: exit={p.returncode} wall={dt:.0f}s violations={len(viol)} known={known} evidence={ev_ok}', flush=True)
+    try:
+        cnt = json.load(open(f'{here}/evidence/{pid}.json'))['coverage'].get('counters', {})
+        exc = {k: v for k, v in cnt.items() if ('exception' in k or 'harness_error' in k) and v}
+        if exc: print(f'   note: harness exceptions on this tree: {exc}')
+    except Exception:
+        pass
     if p.returncode != 0:
         print('   ' + '\n   '.join((p.stdout + p.stderr).strip().split('\n')[-6:])[:1500])
 bad = [r for r in rows if r[1] != 0 or r[5] != 'ok']
